@@ -401,11 +401,31 @@ QUICK_SCALE = {"C02": 8, "C04": 2, "C05": 8, "C07": 8, "C08": 6, "C09": 8, "C10"
                "C14": 8, "C15": 8, "C16": 6, "C17": 4, "C19": 3, "C20": 4}
 
 
+# added in round eleven (what the workloads cover in addition to the rule texts above)
+RULE_ADD = {
+    "C02": "Regex providers with a top-level alternation and maxLength up to 2^64-1; user-dictionary rows with an estimated cost (-32768) are compared with the loaded word parameters; no dictionary candidate may end before a character that cannot start a word.",
+    "C03": "Regex providers with maxLength 65535 and 2^64-1.",
+    "C04": "Escapes with upper- and lower-case hex digits; every fourth stack carries the version-2 magic number (another fourth: version-1 layout).",
+    "C06": "Call sequences 9-11: compile() again after an earlier compile() and more rows, compile() again after three failing sinks (bytes equal to the plain compilation), read_lexicon() that fails on its last line after resolve().",
+    "C07": "rewrite.def entries with '#' inside keys and values.",
+    "C08": "A copy (Clone) of every built buffer answers the same queries.",
+    "C09": "In every third world the mode-C tokenizer went through set_mode sequences before its results are split on demand.",
+    "C10": "Two more operations: analyse / look up into the shared split list (which shares the text of the list that was split); afterwards every kept list is compared with what it reported when it was collected (kinds kept_result_changed / kept_result_panics). The CLI kind cli_rejected_line of C19's driver is judged here too.",
+    "C11": "Every third world is written in the formats without synonym ids (system version 1, user version 2, final synonym array cut off). The Python stage also judges narrow fields= requests combined with each of the seven projections.",
+    "C13": "Regexes with a top-level alternation (only the first branch is anchored) and maxLength 2^64-1; no dictionary candidate may end before a character that cannot start a word.",
+    "C15": "Separators inside the coefficient of a unit: a group of other than three digits after a separator is malformed wherever it stands ('2,30万'); a generator shape writes such coefficients.",
+    "C16": "Texts whose only terminators are middle-dot ellipses (three or more '・'), which the converse clause counts as terminators; dictionary words that go on for more than 30 bytes after the terminator they contain.",
+    "C19": "Narrow fields= with every projection compared with the all-fields tokenizer; files with a line the library rejects (--split-sentences no): the tool stops there or prints nothing it did not analyse; a kept result is re-read after the list holding its split received another text; a panic of the library's own accessors while the reference values are computed is a violation, not a dead worker.",
+}
+
+
 def plan(prop, tier):
     f = PLANS.get(prop)
     if f is None:
         return None
     pl = f(tier)
+    if prop in RULE_ADD:
+        pl["rule"] = pl["rule"].rstrip() + " " + RULE_ADD[prop]
     k = QUICK_SCALE.get(prop)
     if tier == "quick" and k:
         for st in pl["stages"]:
